@@ -154,7 +154,13 @@ def generate(seed: int, tier: str = "quick") -> dict:
         program.append(o)
     if A.add_bystander(R.sub(seed, "bystander"), world) is not None:
         faults.append({"kind": "second_market_of_the_same_kind_registered_first"})
-    return {"property": ID, "seed": seed, "world": world, "program": program, "faults": faults, "opts": {"twin": True}}
+    opts = {"twin": True}
+    if interval == "1min" and R.sub(seed, "direct_drive").random() < 0.1:
+        # the market driven without Actuator.run(): statuses that already carry their data row (as demeter's unit tests do)
+        opts = {"twin": False, "drive": "direct"}
+        program = [o for o in program if o["phase"] != "trigger"]
+        faults.append({"kind": "market_driven_without_the_actuator"})
+    return {"property": ID, "seed": seed, "world": world, "program": program, "faults": faults, "opts": opts}
 
 
 def BASE_UNITS(world, t):
